@@ -81,6 +81,8 @@ def accept_lines(chk, quick):
                 insts.append(("rand", g.instance(key, "rand")))
             insts += shape_variants(g, key, rng, quick)
             insts += constraint_boundaries(g, key, g.instance(key, "min"), t)
+            # an "at least one of" constraint satisfied by a member whose value is false / 0 / empty (presence is what counts): enumerated, never left to the random instances
+            insts += [(how, d) for how, d in constraint_violations(g, key, g.instance(key, "min"), t) if how.startswith("satisfied_by_falsy:")]
             for how, d in insts:
                 for wrap in (("plain",) if quick and rng.random() < 0.6 else ("plain", "bundle")):
                     if is_obs20(key, v):
